@@ -322,6 +322,12 @@ pub fn table_of(name: &str) -> (String, Vec<i64>) {
 
 pub fn dump<W: Write>(out: &mut W, what: &str) {
     match what {
+        "resolve" => {
+            for name in std::env::args().skip(3) {
+                let ok = catch_unwind(|| get_calendar_by_name(&name).is_ok()).unwrap_or(false);
+                writeln!(out, "{} {}", name, if ok { "ok" } else { "err" }).unwrap();
+            }
+        }
         "tables" => {
             for name in NAMES {
                 match catch_unwind(|| table_of(name)) {
